@@ -1522,3 +1522,203 @@ def local_sorts(fn):
                 blk[i] = new
                 done = True
     return done
+
+
+# ---------------------------------------------------------------------------
+# match statements -> if/elif chains
+
+class MatchToIf(ast.NodeTransformer):
+    """`match s: case <value>|<Class()>|<a | b>|None|_ [if g]: ...` -> the
+    equivalent if/elif chain (`==`, `isinstance`, `is`, else).  Patterns
+    with sub-patterns, sequences, mappings or captures other than the bare
+    wildcard are left alone (a rule then says it cannot decide)."""
+
+    def __init__(self):
+        self.n = 0
+
+    def _test(self, pat, subj):
+        if isinstance(pat, ast.MatchValue):
+            return ast.Compare(left=clone(subj), ops=[ast.Eq()],
+                               comparators=[pat.value])
+        if isinstance(pat, ast.MatchSingleton):
+            return ast.Compare(left=clone(subj), ops=[ast.Is()],
+                               comparators=[ast.Constant(value=pat.value)])
+        if isinstance(pat, ast.MatchClass) and not pat.patterns and \
+                not pat.kwd_patterns:
+            return ast.Call(func=ast.Name(id="isinstance", ctx=ast.Load()),
+                            args=[clone(subj), pat.cls], keywords=[])
+        if isinstance(pat, ast.MatchOr):
+            parts = [self._test(p, subj) for p in pat.patterns]
+            if any(p is None for p in parts):
+                return None
+            # Class() | Class() -> isinstance(s, (A, B)); values -> in (...)
+            if all(isinstance(p, ast.Call) for p in parts):
+                return ast.Call(
+                    func=ast.Name(id="isinstance", ctx=ast.Load()),
+                    args=[clone(subj), ast.Tuple(
+                        elts=[p.args[1] for p in parts], ctx=ast.Load())],
+                    keywords=[])
+            if all(isinstance(p, ast.Compare) and isinstance(
+                    p.ops[0], ast.Eq) for p in parts):
+                return ast.Compare(
+                    left=clone(subj), ops=[ast.In()],
+                    comparators=[ast.Tuple(
+                        elts=[p.comparators[0] for p in parts],
+                        ctx=ast.Load())])
+            return ast.BoolOp(op=ast.Or(), values=parts)
+        if isinstance(pat, ast.MatchAs) and pat.pattern is None and \
+                pat.name is None:
+            return True           # wildcard
+        return None
+
+    def visit_Match(self, node):
+        self.generic_visit(node)
+        subj = node.subject
+        pre = []
+        if not isinstance(subj, (ast.Name, ast.Attribute, ast.Constant)):
+            self.n += 1
+            tmp = ast.Name(id=f"_match_subject{self.n}", ctx=ast.Store())
+            pre = [ast.copy_location(ast.Assign(targets=[tmp], value=subj),
+                                     node)]
+            subj = ast.Name(id=tmp.id, ctx=ast.Load())
+        tests = []
+        for c in node.cases:
+            t = self._test(c.pattern, subj)
+            if t is None:
+                return node
+            if c.guard is not None:
+                t = c.guard if t is True else ast.BoolOp(
+                    op=ast.And(), values=[t, c.guard])
+            tests.append(t)
+        # build the chain from the end
+        chain = []
+        for t, c in reversed(list(zip(tests, node.cases))):
+            if t is True:
+                chain = list(c.body)      # later cases are unreachable
+                continue
+            chain = [ast.If(test=t, body=list(c.body), orelse=chain)]
+        out = pre + (chain or [ast.Pass()])
+        for st in out:
+            ast.copy_location(st, node)
+            ast.fix_missing_locations(st)
+        return out
+
+
+def sink_selected_calls(fn):
+    """`if c: f = A` / `else: f = B` (or `f = A if c else B`) followed by
+    the one statement that calls `f` (f used nowhere else) -> that statement
+    in both branches with A resp. B called directly."""
+    done = False
+    for par in [fn] + list(_walk_own(fn)):
+        for fld in ("body", "orelse", "finalbody"):
+            blk = getattr(par, fld, None)
+            if not isinstance(blk, list):
+                continue
+            i = 0
+            while i + 1 < len(blk):
+                st, nx = blk[i], blk[i + 1]
+                sel = None
+                if isinstance(st, ast.If) and len(st.body) == 1 and len(
+                        st.orelse) == 1 and all(
+                        isinstance(s, ast.Assign) and len(s.targets) == 1
+                        and isinstance(s.targets[0], ast.Name)
+                        and isinstance(s.value, (ast.Name, ast.Attribute))
+                        for s in (st.body[0], st.orelse[0])) and \
+                        st.body[0].targets[0].id == \
+                        st.orelse[0].targets[0].id:
+                    sel = (st.body[0].targets[0].id, st.test,
+                           st.body[0].value, st.orelse[0].value)
+                elif isinstance(st, ast.Assign) and len(st.targets) == 1 \
+                        and isinstance(st.targets[0], ast.Name) and \
+                        isinstance(st.value, ast.IfExp) and all(
+                            isinstance(v, (ast.Name, ast.Attribute))
+                            for v in (st.value.body, st.value.orelse)):
+                    sel = (st.targets[0].id, st.value.test, st.value.body,
+                           st.value.orelse)
+                if sel is None or not isinstance(
+                        nx, (ast.Return, ast.Assign, ast.Expr)):
+                    i += 1
+                    continue
+                f, test, a, b = sel
+                uses = [n for n in ast.walk(fn) if isinstance(n, ast.Name)
+                        and n.id == f]
+                calls = [c for c in ast.walk(nx) if isinstance(c, ast.Call)
+                         and isinstance(c.func, ast.Name) and c.func.id == f]
+                n_sel = 2 if isinstance(st, ast.If) else 1
+                if len(calls) != 1 or len(uses) != n_sel + 1:
+                    i += 1
+                    continue
+                # the test must not depend on what the statement evaluates
+                # before the call (it is evaluated first either way)
+                def with_callee(callee):
+                    s2 = clone(nx)
+                    for c in ast.walk(s2):
+                        if isinstance(c, ast.Call) and isinstance(
+                                c.func, ast.Name) and c.func.id == f:
+                            c.func = clone(callee)
+                    return s2
+                new = ast.If(test=test, body=[with_callee(a)],
+                             orelse=[with_callee(b)])
+                ast.copy_location(new, st)
+                ast.fix_missing_locations(new)
+                blk[i:i + 2] = [new]
+                done = True
+                i += 1
+    return done
+
+
+def exitstack_rollback(fn):
+    """`with contextlib.ExitStack() as S: S.callback(F, *a); BODY;
+    S.pop_all()` (S used nowhere else) -> `try: BODY` + `except
+    BaseException: F(*a); raise`"""
+    done = False
+    for par in [fn] + list(_walk_own(fn)):
+        for fld in ("body", "orelse", "finalbody"):
+            blk = getattr(par, fld, None)
+            if not isinstance(blk, list):
+                continue
+            for i, w in enumerate(blk):
+                if not (isinstance(w, ast.With) and len(w.items) == 1
+                        and isinstance(w.items[0].context_expr, ast.Call)
+                        and norm(w.items[0].context_expr.func) in (
+                            "contextlib.ExitStack", "ExitStack")
+                        and not w.items[0].context_expr.args
+                        and isinstance(w.items[0].optional_vars, ast.Name)
+                        and len(w.body) >= 2):
+                    continue
+                S = w.items[0].optional_vars.id
+                first, last = w.body[0], w.body[-1]
+
+                def is_call(st, attr):
+                    return isinstance(st, ast.Expr) and isinstance(
+                        st.value, ast.Call) and isinstance(
+                        st.value.func, ast.Attribute) and isinstance(
+                        st.value.func.value, ast.Name) and \
+                        st.value.func.value.id == S and \
+                        st.value.func.attr == attr
+                if not (is_call(first, "callback") and first.value.args
+                        and is_call(last, "pop_all")):
+                    continue
+                uses = [n for n in ast.walk(fn) if isinstance(n, ast.Name)
+                        and n.id == S]
+                if len(uses) != 3:
+                    continue
+                body = w.body[1:-1]
+                if any(isinstance(n, (ast.Return, ast.Break, ast.Continue))
+                       for s_ in body for n in ast.walk(s_)):
+                    continue
+                cb = first.value
+                cleanup = ast.Expr(value=ast.Call(
+                    func=cb.args[0], args=cb.args[1:],
+                    keywords=cb.keywords))
+                handler = ast.ExceptHandler(
+                    type=ast.Name(id="BaseException", ctx=ast.Load()),
+                    name=None, body=[cleanup, ast.Raise(exc=None,
+                                                        cause=None)])
+                new = ast.Try(body=body or [ast.Pass()], handlers=[handler],
+                              orelse=[], finalbody=[])
+                ast.copy_location(new, w)
+                ast.fix_missing_locations(new)
+                blk[i] = new
+                done = True
+    return done
